@@ -38,6 +38,34 @@ def run(ctx):
           keep=lambda o: "set_point" in o.construct or "setpoint" in o.construct.lower() or o.verdict != "HOLDS")
 
 
+def _grow_only_state(getter: Fn):
+    """Name of an instance attribute the getter returns that the class only ever extends in place (append/extend/add/insert,
+    no re-assignment outside __init__, no remove/clear), or None."""
+    rets = [x.value for x in walk_no_nested(getter.node) if isinstance(x, ast.Return) and x.value is not None]
+    cls = getter.cls
+    if cls is None:
+        return None
+    for r in rets:
+        for a in ast.walk(r):
+            if isinstance(a, ast.Attribute) and isinstance(a.value, ast.Name) and a.value.id == "self":
+                name = a.attr
+                grows = shrinks = rebinds = 0
+                for mname, fnode in cls.methods.items():
+                    for x in ast.walk(fnode):
+                        if isinstance(x, ast.Call) and isinstance(x.func, ast.Attribute) and isinstance(x.func.value, ast.Attribute) and dotted(x.func.value) == f"self.{name}":
+                            if x.func.attr in ("append", "extend", "add", "insert", "update"):
+                                grows += 1
+                            elif x.func.attr in ("remove", "discard", "clear", "pop"):
+                                shrinks += 1
+                        if isinstance(x, (ast.Assign, ast.AnnAssign, ast.AugAssign)) and mname != "__init__":
+                            tg = x.targets if isinstance(x, ast.Assign) else [x.target]
+                            if any(dotted(t) == f"self.{name}" for t in tg):
+                                rebinds += 1
+                if grows and not shrinks and not rebinds:
+                    return name
+    return None
+
+
 def _tx_nodes(f: Fn):
     """CFG nodes that transmit: direct socket sends or calls of a private _send_* helper."""
     out = []
@@ -215,10 +243,18 @@ def r2(ctx):
         try:
             v = Mini(ctx.repo, m4, {"self._group_status.supports_turbo": turbo}, z4.cls).function_value(z4.node, {})
         except Unsupported as ex:
+            # the getter hands out stored state instead of deriving the list from the latest record: decide the one case that is
+            # clear from the shape of the code - a list that is only ever extended in place can never lose TURBO again
+            stale = _grow_only_state(z4)
+            if stale:
+                ctx.violation(R, "At4Zone.supported_power_states:turbo-iff-supported", m4, z4.node, "OFF and ON always, TURBO exactly when the latest group status reports supports_turbo", f"returns self.{stale}, a stored list that is extended in place and never rebuilt: once TURBO was added it stays accepted after the group stops reporting turbo support")
+                res = None
+                break
             raise AnalysisError(f"{m4.relpath}: At4Zone.supported_power_states left the evaluable fragment: {ex}")
         res[turbo] = sorted(getattr(x, "name", repr(x)) for x in (v or []))
-    ok = res[False] == ["OFF", "ON"] and res[True] == ["OFF", "ON", "TURBO"]
-    ctx.check(ok, R, "At4Zone.supported_power_states:turbo-iff-supported", m4, z4.node, "OFF and ON always, TURBO exactly when the group status reports supports_turbo", f"without turbo support: {res[False]}, with: {res[True]}")
+    if res is not None:
+        ok = res[False] == ["OFF", "ON"] and res[True] == ["OFF", "ON", "TURBO"]
+        ctx.check(ok, R, "At4Zone.supported_power_states:turbo-iff-supported", m4, z4.node, "OFF and ON always, TURBO exactly when the group status reports supports_turbo", f"without turbo support: {res[False]}, with: {res[True]}")
     fresh = not any(isinstance(x, ast.Return) and isinstance(x.value, (ast.Name, ast.Attribute)) and (ctx.repo.try_fold(m4, x.value) is not None or (isinstance(x.value, ast.Name) and x.value.id in m4.assigns)) for x in ast.walk(z4.node)) and not any(isinstance(x, ast.Assign) and isinstance(x.value, ast.Name) and x.value.id in m4.assigns for x in ast.walk(z4.node))
     ctx.check(fresh, R, "At4Zone.supported_power_states:base", m4, z4.node, "the list is built anew on every call (a module-level list that is extended in place would keep TURBO for every zone)", "a shared module-level list is handed out or extended")
     z4c = m4.get_class("At4Zone")
